@@ -50,7 +50,7 @@ func (l layout18) stmtSep() string {
 
 func (l layout18) comment() string {
 	if l.style >= 2 && l.r.Intn(4) == 0 {
-		return []string{"<%# note %>", "<%# a b c\n d %>", "<%#%>"}[l.r.Intn(3)]
+		return []string{"<%# note %>", "<%# a b c\n d %>", "<%#%>", "<%# it's 100% sure? %>", "<%# caf\xc3\xa9 @ $ ^ \\ & | 1.2.3 %>", "<%# } else { %>", "<%# <%= x %>"}[l.r.Intn(7)]
 	}
 	return ""
 }
